@@ -1,4 +1,5 @@
 import CotengraVerif.Props.C08
+import CotengraVerif.Props.C08X
 import CotengraVerif.Generated.FactsC08
 
 /-!
@@ -49,5 +50,34 @@ theorem repaired_code_costs_true {τ : Type} (ops : TreeOps τ) (a s sr r : Bool
   rcases figures_always_filled with hp | hall
   · exact Or.inl hp
   · exact Or.inr (Or.inl (hall _ hname))
+
+/-- the source fact the full statements below rest on: `ComputeScore.__call__` itself calls
+    `ensure_basic_quantities_are_computed(trial)` after scoring (the repair of DESIGN 7f) -/
+theorem compute_score_post_ensures : computeScorePostEnsure = true := by decide
+
+/-- **current_source_costs_true** — the full statement `record_costs_true_partial` stands for, on
+    the current source, with no guard: for *every* objective (built-in or custom callable, filling
+    the figures or not, returning any float including NaN), every option set and every behaviour
+    of the trees, the record returned by `ComputeScore` carries `flops/write/size` equal to
+    `contract_stats()` of the tree it carries. -/
+theorem current_source_costs_true {τ : Type} (ops : TreeOps τ) (ws : List Wrapper)
+    (obj : XObjective τ) (onErr : OnErr) (raw : Raw τ) (rec : XRDict τ)
+    (h : xcomputeScore ops ws obj computeScorePostEnsure onErr raw = some rec) :
+    TrueRecord ops (eraseRec rec) :=
+  xrecord_costs_true ops ws obj _ onErr raw rec (Or.inl compute_score_post_ensures) h
+
+/-- **current_source_search_correct** — `xhyper_search_correct_parallel` instantiated with the
+    facts of the current source (wrapper order of `setup`, post-ensure): no guard left. -/
+theorem current_source_search_correct {τ : Type} (ops : TreeOps τ) (idOf : τ → Nat)
+    (statsOf : Nat → CStats) (hstats : ∀ t, ops.stats t = statsOf (idOf t)) (a s sr r : Bool)
+    (obj : XObjective τ) (onErr : OnErr) (getSetting : XState → Setting)
+    (raws : Nat → Setting → Raw τ) (times : Nat → Nat) (doneAt : Nat → Bool) (mts : Option Nat)
+    (pre maxRepeats : Nat) (stop : StopRule) (choices : List Nat) :
+    let ps := xsearchParallel (xworkerEnv ops idOf (setupStack a s sr r) obj computeScorePostEnsure
+      onErr getSetting raws times doneAt) pre maxRepeats stop choices (XState.init mts)
+    SearchCorrect statsOf maxRepeats ps.h ∧
+      (onErr ≠ .raise → ps.raised = none ∧ ps.futures = []) :=
+  xhyper_search_correct_parallel ops idOf statsOf hstats _ obj _ onErr
+    (Or.inl compute_score_post_ensures) getSetting raws times doneAt mts pre maxRepeats stop choices
 
 end Cotengra.C08
